@@ -2,7 +2,9 @@ SPECIFICATION Spec
 CONSTANTS
   Depth = 2
   Start = 3000000
+  WireDepth = 1
 INVARIANT CasTokenAccepted
 INVARIANT CasUnique
 INVARIANT ManyAgrees
+INVARIANT WireRefinesAbstract
 CHECK_DEADLOCK FALSE
